@@ -68,7 +68,7 @@ pub fn run(ctx: &mut Ctx) -> bool {
             }
         }
         "C09" => {
-            ctx.rule = "Pure part: cases are (wtime, btime, winc, binc, movestogo, side) tuples from a mixture of negative, zero, 1..200 (dense at 99/100/101), 10^2..10^7, powers of two up to 2^62 and i128 extremes, movestogo absent / 1..40 / 10^4 / u32::MAX, plus the exhaustive grid clock 0..=1000 (20000 thorough) x inc {0,1,50,125,1000,60000} x movestogo {absent,1,2,3,10,30,40,200} x both colours. Oracle (upper bounds only, +1 ms rounding, 1e-9 relative for f64 at huge values): (i) result unchanged when the opponent's clock and increment are replaced; (ii) clock > 100 => slice <= 0.8*(clock-100)/mtg with mtg = 30 when absent; (iii) clock <= 100 and inc <= 0 => 0; (iv) slice <= max(clock,0) except the listed known finding F6. parse_go_command is checked on generated token lists (fields in any order, ignorable tokens at key boundaries). Non-trivial = clock within 5 ms of the margin, or the two clocks differ by more than 2x, or an increment-only case; for parsing, a list containing ignored tokens; distinct by parameter tuple.".into();
+            ctx.rule = "Pure part: cases are (wtime, btime, winc, binc, movestogo, side) tuples from a mixture of negative, zero, 1..200 (dense at 99/100/101), 10^2..10^7, powers of two up to 2^62 and i128 extremes, movestogo absent / 1..40 / 10^4 / u32::MAX, plus the exhaustive grid clock 0..=1000 (20000 thorough) x inc {0,1,50,125,1000,60000} x movestogo {absent,1,2,3,10,30,40,200} x both colours. Oracle (upper bounds only, +1 ms rounding, 1e-9 relative for f64 at huge values): (i) result unchanged when the opponent's clock and increment are replaced; (ii) clock > 100 => slice <= 0.8*(clock-100)/mtg with mtg = 30 when absent; (iii) clock <= 100 and inc <= 0 => 0; (iv) slice <= max(clock,0) except the listed known finding F6. parse_go_command is checked on generated token lists (fields in any order, ignorable tokens at key boundaries). Non-trivial = clock within 5 ms of the margin, or the two clocks differ by more than 2x, or an increment-only case; for parsing, a list containing ignored tokens; distinct by parameter tuple. Timed part (real binary): sessions of 1-3 go commands, each measured delay must lie in [plan - 3 ms, plan + 500 ms] (three serial measurements before a violation); a third of the gos are sent after 120 ms of silence (the slice starts when the go command arrives).".into();
             ctx.assumptions = vec!["a more cautious policy than the stated bound is not a violation (the property says 'at most')".into()];
             timectl::run_c09_pure(ctx);
             blackbox::run_c09_timed(ctx);
